@@ -47,3 +47,29 @@ __CPROVER_requires(in[11] >= in[8] && in[12] >= in[8])
 __CPROVER_assigns(__CPROVER_object_whole(out))
 __CPROVER_ensures(out[0] == REWARD)
 __CPROVER_ensures(out[1] == (SCORE == 0 ? 0 : REWARD * WEIGHT / SCORE));
+
+/* score of a block = sum over its endorsements whose block of proof is on the best VBK chain of table[height - lowest such height]
+ * (table entry 10 + i for i < 4, else 0); difficulty = max(1, (sum of the scores of the `avg` blocks below the tip, as far as they exist) / avg) */
+#define RET __CPROVER_return_value
+#ifndef AVG
+#define AVG 3
+#endif
+#define EXa(a, j) (sc[4 * (2 * (a) + (j))] != 0)
+#define BOPa(a, j) sc[4 * (2 * (a) + (j)) + 1]
+#define KN(a, j) (BOPa(a, j) >= 0 && BOPa(a, j) < 3)
+#define VH(g) vb[2 * (g)]
+#define VBEST(g) (vb[2 * (g) + 1] != 0)
+#define CNT(a, j) (EXa(a, j) && KN(a, j) && VBEST(KN(a, j) ? BOPa(a, j) : 0))
+#define HT(a, j) VH(KN(a, j) ? BOPa(a, j) : 0)
+/* lowest counted height of block a (only used when one counts) */
+#define BESTH(a) (CNT(a, 0) && (!CNT(a, 1) || HT(a, 0) <= HT(a, 1)) ? HT(a, 0) : HT(a, 1))
+#define TAB(r) ((r) >= 0 && (r) < 4 ? 10 + (r) : 0)
+#define TERM(a, j) (CNT(a, j) ? TAB(HT(a, j) - BESTH(a)) : 0)
+#define SCORE_OF(a) ((CNT(a, 0) || CNT(a, 1)) ? TERM(a, 0) + TERM(a, 1) : 0)
+#define SUMN ((avg > 0 && nchain > 0 ? SCORE_OF(0) : 0) + (avg > 1 && nchain > 1 ? SCORE_OF(1) : 0) + (avg > 2 && nchain > 2 ? SCORE_OF(2) : 0))
+int32_t w_rscore_c(const int32_t* sc, const int32_t* vb, int op, int avg, int nchain)
+__CPROVER_requires(__CPROVER_is_fresh(sc, 24 * 4) && __CPROVER_is_fresh(vb, 6 * 4) && op >= 0 && op <= 1 && avg == AVG && nchain >= 0 && nchain <= 3)
+__CPROVER_requires(VH(0) >= 0 && VH(0) < 1000 && VH(1) >= 0 && VH(1) < 1000 && VH(2) >= 0 && VH(2) < 1000)
+__CPROVER_assigns()
+__CPROVER_ensures(op != 0 || RET == SCORE_OF(0))
+__CPROVER_ensures(op != 1 || RET == (SUMN / AVG < 1 ? 1 : SUMN / AVG));
